@@ -1018,6 +1018,7 @@ Ltac rel_step :=
     | apply rel_lift; eqv_rd
     | apply rel_modify; [eqv_rd|reflexivity]
     | apply rel_bind; [|intro]
+    | apply rel_forM; intro
     | match goal with
       | |- rel (if ?c then _ else _) => destruct c
       | |- rel (match ?x with _ => _ end) => destruct x
@@ -1056,9 +1057,166 @@ Proof.
   assert (Hx : forall pl t, rel (fix_ty H (S f) pl t)).
   { intros pl t. rewrite fix_ty_S. repeat rel_step; auto.
     generalize (variance H o) as vs.
-    induction args as [|p ps IHp]; intros [|b vs]; repeat rel_step; auto. }
+    induction args as [|p ps IHp]; intros [|b0 vs]; repeat rel_step; auto. }
   repeat split; auto.
   intros sub skb skw a b. rewrite unify_S. repeat rel_step; auto.
   generalize (variance H o) as vs. revert args0.
-  induction args as [|x xs IHxs]; intros [|y ys] [|b vs]; repeat rel_step; auto.
+  induction args as [|x xs IHxs]; intros [|y ys] [|b0 vs]; repeat rel_step; auto.
+Qed.
+
+Theorem rels_all : forall f, rels f.
+Proof. induction f as [|f IH]; [apply rels_0|apply rels_step; exact IH]. Qed.
+
+Lemma rel_unify f sub skb skw a b : rel (unify H f sub skb skw a b).
+Proof. apply rels_all. Qed.
+Lemma rel_bind_var f v t : rel (bind H f v t).
+Proof. apply rels_all. Qed.
+Lemma rel_fix_ty f pl t : rel (fix_ty H f pl t).
+Proof. apply rels_all. Qed.
+
+(* ------------------------------------------------------------------ *)
+(* schemas with pure constraints, application, programs                 *)
+(* ------------------------------------------------------------------ *)
+
+(* x <= A  /  x < A  for a schematic variable x and a concrete base type A *)
+Definition pure_sconstr (sc : sconstr) : Prop :=
+  match sc with
+  | SCSub (SVar _) (SOp a []) _ => variance H a = []
+  | _ => False
+  end.
+
+Definition pure_schema (sc : schema) : Prop := Forall pure_sconstr (s_constrs sc).
+
+Definition pure_cmd (c : cmd) : Prop :=
+  match c with CInst sc => pure_schema sc | _ => True end.
+
+Lemma rel_eval_sty env : forall t, rel (eval_sty env t).
+Proof.
+  induction t as [i| |o args IH] using sty_ind'; cbn [eval_sty]; repeat rel_step.
+  induction IH as [|a r Ha Hr IHr]; repeat rel_step; auto.
+Qed.
+
+Lemma allpure_alloc_constr s k : allpure s -> pureK k -> allpure (snd (alloc_constr s k)).
+Proof.
+  intros P Pk c. destruct (Nat.lt_ge_cases c (length (constrs s))) as [L|L].
+  - rewrite alloc_constr_old by exact L. apply P.
+  - destruct (Nat.eq_dec c (length (constrs s))) as [->|N].
+    + rewrite alloc_constr_new. exact Pk.
+    + rewrite (@constr_of_oob (snd (alloc_constr s k)) c) by (rewrite alloc_constr_length; lia).
+      rewrite <- (@constr_of_oob s c L). apply P.
+Qed.
+
+Lemma rel_new_constraint fuel k : pureK k -> rel (new_constraint H fuel k).
+Proof.
+  intros Pk. unfold new_constraint. apply rel_bind.
+  - intros s1 s2 E P. cbn. destruct E as (Ev & Ec & Ek). rewrite <- Ek.
+    split; [reflexivity|]. split; [unfold eqv; cbn; rewrite Ek; auto|].
+    apply (allpure_alloc_constr s1 k P Pk).
+  - intros c. repeat rel_step.
+Qed.
+
+Lemma rel_eval_constr fuel env sc : pure_sconstr sc -> rel (eval_constr H fuel env sc).
+Proof.
+  destruct sc as [r t strict|r alts]; cbn [pure_sconstr]; [|tauto].
+  destruct r as [i| |]; try tauto. destruct t as [| |a [|x xs]]; try tauto. intros Va.
+  cbn [eval_constr eval_sty].
+  intros s1 s2 E P. unfold bindM, gets, ret.
+  rewrite !follow_O. rewrite <- !(follow_eqv s1 s2 _ E).
+  apply rel_new_constraint; auto.
+  split; [reflexivity|]. cbn [k_alts]. intros t Et. inversion Et; subst.
+  exists a. split; [reflexivity|]. unfold Engine.basic, arity. rewrite Va. reflexivity.
+Qed.
+
+Lemma rel_forM_Forall {A} (Q : A -> Prop) (f : A -> M unit) :
+  (forall x, Q x -> rel (f x)) -> forall l, Forall Q l -> rel (forM l f).
+Proof.
+  intros F. induction 1 as [|x l Hx Hl IH]; cbn [forM]; [apply rel_ret|].
+  apply rel_bind; auto.
+Qed.
+
+Lemma rel_instance fuel sc : pure_schema sc -> rel (instance H fuel sc).
+Proof.
+  intros Ps. unfold instance.
+  apply rel_bind; [apply rel_fresh_list|]. intros env.
+  apply rel_bind; [apply rel_eval_sty|]. intros body0.
+  apply rel_bind; [|intros _; apply rel_fix_ty].
+  apply (rel_forM_Forall pure_sconstr); [|exact Ps].
+  intros x Hx. apply rel_eval_constr. exact Hx.
+Qed.
+
+Lemma rel_apply fuel f x fixb : rel (apply H fuel f x fixb).
+Proof.
+  unfold apply. repeat rel_step; auto using rel_bind_var, rel_unify, rel_fix_ty.
+Qed.
+
+Lemma rel_run_cmd fuel c vals : pure_cmd c -> rel (run_cmd H fuel c vals).
+Proof.
+  destruct c as [sc|f x fixb|a b sub|a pl]; cbn [pure_cmd run_cmd]; intros Pc.
+  - apply rel_bind; [apply rel_instance; exact Pc|intro; apply rel_ret].
+  - apply rel_bind; [apply rel_apply|intro; apply rel_ret].
+  - apply rel_bind; [apply rel_unify|intro; apply rel_ret].
+  - apply rel_bind; [apply rel_fix_ty|intro; apply rel_ret].
+Qed.
+
+Definition outcome_rel (r1 r2 : option (err * nat) * list tyv * store) : Prop :=
+  match fst (fst r1), fst (fst r2) with
+  | None, None => snd (fst r1) = snd (fst r2) /\ eqv (snd r1) (snd r2)
+  | Some (e1, i1), Some (e2, i2) => i1 = i2 /\ ER e1 e2
+  | _, _ => False
+  end.
+
+Lemma run_cmds_rel fuel : forall cs i vals s1 s2, Forall pure_cmd cs -> eqv s1 s2 -> allpure s1 ->
+  outcome_rel (run_cmds H fuel cs i vals s1) (run_cmds H fuel cs i vals s2).
+Proof.
+  induction cs as [|c cs IH]; intros i vals s1 s2 Pc E P; cbn [run_cmds].
+  - unfold outcome_rel; cbn. auto.
+  - inversion Pc as [|c' cs' Hc Hcs]; subst.
+    pose proof (rel_run_cmd fuel c vals Hc s1 s2 E P) as R. unfold RR in R.
+    destruct (run_cmd H fuel c vals s1) as [v1 s1'|e1 s1'],
+             (run_cmd H fuel c vals s2) as [v2 s2'|e2 s2']; try contradiction.
+    + destruct R as (-> & E' & P'). apply IH; auto.
+    + unfold outcome_rel; cbn. auto.
+Qed.
+
+Lemma allpure_empty sc : allpure (empty_store sc).
+Proof.
+  intros c. unfold constr_of; cbn. destruct c; (split; [reflexivity|intros t Et; discriminate]).
+Qed.
+
+End Pure.
+
+(* ------------------------------------------------------------------ *)
+(* item 4: whole programs                                               *)
+(* ------------------------------------------------------------------ *)
+
+(* the errors a violated pure constraint can be reported with *)
+Definition viol_err (e : err) : Prop :=
+  e = ETypeMismatch \/ e = EConstraintViolation \/ e = EFuel.
+
+Definition pure_prog (H : hier) (prog : list cmd) : Prop := Forall (pure_cmd H) prog.
+
+Theorem run_cmds_pure : forall H fuel prog sc1 sc2, pure_prog H prog ->
+  let r1 := run_cmds H fuel prog 0 [] (empty_store sc1) in
+  let r2 := run_cmds H fuel prog 0 [] (empty_store sc2) in
+  match fst (fst r1), fst (fst r2) with
+  | None, None =>
+      snd (fst r1) = snd (fst r2) /\
+      vars (snd r1) = vars (snd r2) /\ csets (snd r1) = csets (snd r2) /\
+      constrs (snd r1) = constrs (snd r2)
+  | Some (e1, i1), Some (e2, i2) => i1 = i2 /\ (e1 = e2 \/ (viol_err e1 /\ viol_err e2))
+  | _, _ => False
+  end.
+Proof.
+  intros H fuel prog sc1 sc2 Pp r1 r2.
+  pose proof (run_cmds_rel H fuel prog 0 [] (empty_store sc1) (empty_store sc2) Pp
+                (conj eq_refl (conj eq_refl eq_refl)) (allpure_empty H sc1)) as R.
+  unfold outcome_rel in R. fold r1 r2 in R.
+  destruct r1 as [[o1 v1] s1] eqn:E1, r2 as [[o2 v2] s2] eqn:E2. cbn [fst snd] in *.
+  destruct o1 as [[e1 i1]|], o2 as [[e2 i2]|]; try contradiction; [|exact R].
+  destruct R as (-> & [->|(C1 & C2)]); split; auto.
+  assert (N1 : forall site, e1 <> ECrash site) by (eapply engine_nocrash; exact E1).
+  assert (N2 : forall site, e2 <> ECrash site) by (eapply engine_nocrash; exact E2).
+  right. unfold cerr, viol_err in *. split.
+  - destruct C1 as [?|[?|[?|C]]]; auto. destruct (N1 _ C).
+  - destruct C2 as [?|[?|[?|C]]]; auto. destruct (N2 _ C).
 Qed.
